@@ -33,11 +33,21 @@ func (m *markDriver) Unserialize(io.Reader, *native.UnserializeOptions, interfac
 
 type markSerializer struct{ name string }
 
+// what a markSerializer serializes to: only the driver that made it can render it
+type markDoc struct {
+	by   *markSerializer
+	text string
+}
+
 func (m *markSerializer) Serialize(*sbom.Document, *native.SerializeOptions, interface{}) (interface{}, error) {
-	return m.name, nil
+	return &markDoc{m, m.name}, nil
 }
 func (m *markSerializer) Render(doc interface{}, w io.Writer, _ *native.RenderOptions, _ interface{}) error {
-	_, err := w.Write([]byte(doc.(string)))
+	md, ok := doc.(*markDoc)
+	if !ok || md.by != m {
+		return fmt.Errorf("driver %s asked to render a document it did not serialize", m.name)
+	}
+	_, err := w.Write([]byte(md.text))
 	return err
 }
 
@@ -389,6 +399,18 @@ func runStress(op M) any {
 		// each result has to be come afterwards
 		got := make([][]string, 16)
 		shared := reader.New()
+		// meanwhile a driver for an unrelated format is registered and removed over and over
+		var stopChurn atomic.Bool
+		var churn sync.WaitGroup
+		churn.Add(1)
+		go func() {
+			defer churn.Done()
+			for i := 0; !stopChurn.Load(); i++ {
+				f := formats.Format("verif/parse-churn")
+				reader.RegisterUnserializer(f, &markDriver{"churn"})
+				reader.UnregisterUnserializer(f)
+			}
+		}()
 		for w := 0; w < 16; w++ {
 			wg.Add(1)
 			got[w] = make([]string, iters/2+1)
@@ -420,7 +442,17 @@ func runStress(op M) any {
 				count(2 * (iters/2 + 1))
 			}(w)
 		}
-		wg.Wait()
+		parsed := make(chan struct{})
+		go func() { wg.Wait(); close(parsed) }()
+		select {
+		case <-parsed:
+		case <-time.After(90 * time.Second):
+			v.add("parses next to registrations of an unrelated format do not return: the calls block one another")
+			stopChurn.Store(true)
+			return M{"calls": float64(calls), "violations": v.l, "count": float64(v.n)}
+		}
+		stopChurn.Store(true)
+		churn.Wait()
 		want := make([]string, len(inputs))
 		for i, in := range inputs {
 			want[i] = skelOf(reader.New(), in)
@@ -599,6 +631,8 @@ func runStress(op M) any {
 		{
 			echo := formats.Format("verif/echo-options")
 			reader.RegisterUnserializer(echo, &echoDriver{})
+			// one call-options value for everybody: a call only reads the options it is given
+			sharedCall := &reader.Options{Format: echo}
 			var busy sync.WaitGroup
 			for w := 0; w < 8; w++ {
 				busy.Add(1)
@@ -612,7 +646,7 @@ func runStress(op M) any {
 							}
 							val := fmt.Sprintf("p%d-%d", w, i)
 							rd := reader.New(reader.WithFormatOptions(echoKey, val))
-							d, err := rd.ParseStreamWithOptions(bytes.NewReader([]byte("{}")), &reader.Options{Format: echo})
+							d, err := rd.ParseStreamWithOptions(bytes.NewReader([]byte("{}")), sharedCall)
 							if err != nil || d == nil || d.Metadata.Name != val {
 								v.add("a parse through a reader built with format options %q handed its driver %q (error %v)", val, d.GetMetadata().GetName(), err)
 							}
